@@ -13,6 +13,7 @@ import Spg.Generated.AgileWords
 import Spg.Generated.AgileSyllables
 import Spg.Generated.Cli
 import Std.Data.HashMap
+import Spg.Model.Fields
 namespace Spg.Driver
 open Spg
 
@@ -240,7 +241,12 @@ def cliLine (env : Env) (as : List (String × String)) : String :=
     let built : Option (WordList × Nat) :=
       if list == "words" then env.words.get
       else if list == "syllables" then env.syllables.get
-      else let (ws, title) := wordsAndTitle as; newWordList title ws
+      else
+        let (ws, title) := wordsAndTitle as
+        -- `--file`: when the operation carries the file's text, the words are what the model of
+        -- `strings.Fields` makes of it (the `words=`/`titles=` pair then only supplies strings.Title)
+        let ws := if (as.lookup "filetext").isSome then Fields.fields (parseCps (arg as "filetext")) else ws
+        newWordList title ws
     match built with
     | none => s!"fatal exit={t.exitCatchall}"
     | some (wl, dups) =>
